@@ -8,7 +8,7 @@ Srvs == {"dav", "cal", "card", "principal"}
 Methods == {"OPTIONS", "GET", "HEAD", "PUT", "DELETE", "MKCOL", "COPY", "MOVE", "PROPFIND", "PROPPATCH", "REPORT", "LOCK", "FOO", "POST"}
 Levels == 0..5
 Depths == {"absent", "0", "1", "infinity", "bad"}
-CTs == {"none", "xml", "textxml", "obj", "other", "malformed"}
+CTs == {"none", "xml", "textxml", "obj", "objbadparam", "other", "malformed"}
 Bodies == {"none", "valid", "emptyxml", "wrongroot", "truncated", "garbage", "badobj", "badobj2"}
 Base(s, m, lv) == [srv |-> s, m |-> m, level |-> lv, depth |-> "absent", ow |-> "absent", dest |-> "na", ctype |-> "none", body |-> "none", cond |-> "none"]
 LevelsOf(s) == IF s = "dav" THEN 0..3 ELSE IF s = "principal" THEN {1} ELSE Levels
